@@ -167,7 +167,7 @@ func modeSchedFree(a args) {
 		}
 	}
 	// a stage condition whose executable leaves a child behind (that keeps its output open) and returns at once
-	for i := 0; i < a.n(2, 16); i++ {
+	for i := 0; i < a.n(8, 32); i++ {
 		if a.mine(i) {
 			runLingeringCondition(a, i)
 		}
